@@ -52,7 +52,7 @@ pub enum QMsg {
 
 pub struct Th {
     pub name: String,
-    pub os: ThreadId,
+    pub os: Option<ThreadId>,
     pub pending: Option<Op>,
     pub exited: bool,
     pub catches_panics: bool,
@@ -166,10 +166,13 @@ impl Sched {
 
     /// Spawn a harness thread under control. Its body starts after the controller grants `Start`.
     pub fn spawn<F: FnOnce() + Send + 'static>(&self, name: &str, catches_panics: bool, f: F) -> JoinHandle<()> {
-        {
+        // the slot (= the thread's id) is reserved here, in spawn order, so ids do not depend on OS timing
+        let slot = {
             let mut st = self.lock();
             st.expected += 1;
-        }
+            st.threads.push(Th { name: name.to_string(), os: None, pending: None, exited: false, catches_panics, holding: None, is_worker: false });
+            st.threads.len() - 1
+        };
         let s = self.clone();
         let name = name.to_string();
         thread::Builder::new()
@@ -177,9 +180,8 @@ impl Sched {
             .spawn(move || {
                 {
                     let mut st = s.lock();
-                    let i = st.threads.len();
-                    st.threads.push(Th { name, os: thread::current().id(), pending: None, exited: false, catches_panics, holding: None, is_worker: false });
-                    st.by_os.insert(thread::current().id(), i);
+                    st.threads[slot].os = Some(thread::current().id());
+                    st.by_os.insert(thread::current().id(), slot);
                 }
                 MY_GEN.with(|c| c.set(s.0.gen));
                 s.yield_op(Op::Start);
@@ -220,7 +222,7 @@ impl Sched {
                 // a thread created by the code under test (pool worker) reports for the first time
                 let i = st.threads.len();
                 let name = format!("w{}", i);
-                st.threads.push(Th { name, os, pending: None, exited: false, catches_panics: false, holding: None, is_worker: true });
+                st.threads.push(Th { name, os: Some(os), pending: None, exited: false, catches_panics: false, holding: None, is_worker: true });
                 st.by_os.insert(os, i);
                 i
             }
@@ -574,7 +576,7 @@ fn core_enabled(st: &St, tid: usize, op: &Op, world: &dyn World) -> bool {
         Op::Accept(_) => world.thread_enabled(st, tid, op),
         Op::EnvWait(k) => st.signals.contains(k),
         Op::Probe(P::WorkerLoopTop) => !st.queue.is_empty(),
-        Op::Probe(P::DropBeforeJoin(os)) => st.threads.iter().any(|t| t.os == *os && t.exited) || !st.threads.iter().any(|t| t.os == *os),
+        Op::Probe(P::DropBeforeJoin(os)) => st.threads.iter().any(|t| t.os == Some(*os) && t.exited) || !st.threads.iter().any(|t| t.os == Some(*os)),
         Op::Probe(P::ClientWantLock) | Op::Custom(_) => world.thread_enabled(st, tid, op),
         Op::Probe(_) => true,
     }
